@@ -76,9 +76,20 @@ def generate(seed: int, index: int, tier: str) -> dict:
     if index % 2 == 0:
         return _small(rng, index // 2, tier)
     merge = rng.random() < 0.3
-    scn = gen.base_scenario(rng, PROP, nr_max=8, npert_max=6, nv_max=4, merge=merge, stddev=(False if merge else None), inject_p=0.8)
+    large = index % 50 == 49
+    if large:
+        # a filter ranking an ensemble with exact ties in its sort key and failed realizations: the tied realizations
+        # must be ranked as in the ensemble without the failed ones (sizes beyond those NumPy sorts by insertion)
+        scn = gen.base_scenario(rng, PROP, nr=rng.randint(17, 32), npert_max=2, nv_max=3, merge=False, stddev=False, filters=True,
+                                inject_p=0.8, script_len=rng.randint(1, 2))
+    else:
+        scn = gen.base_scenario(rng, PROP, nr_max=8, npert_max=6, nv_max=4, merge=merge, stddev=(False if merge else None), inject_p=0.8)
     gen.add_nan_faults(rng, scn, rate=0.9, max_faults=6)
     scn["stratum"] = "sampled-merged" if scn["configs"][0]["gradient"].get("merge_realizations") else "sampled"
+    if len(scn["world"]["real_ids"]) >= 3 and rng.random() < (0.8 if large else 0.3):
+        gen.add_ties(rng, scn)
+    if large:
+        scn["stratum"] = "sampled-large-ties"
     return scn
 
 
